@@ -2,6 +2,7 @@ package server
 
 import (
 	"pgregory.net/rapid"
+	"strings"
 
 	"verifharness/internal/gen"
 	"verifharness/internal/harn"
@@ -16,7 +17,8 @@ var markedResultKinds = resultKinds[:10]
 
 func genResult(t *rapid.T, kinds []uint8, st *Step) {
 	if rapid.IntRange(0, 3).Draw(t, "iserr") == 0 {
-		st.ErrText = rapid.SampledFrom([]string{"boom", "permission denied", "x", "file not found"}).Draw(t, "errtext")
+		st.ErrText = rapid.SampledFrom([]string{"boom", "permission denied", "x", "file not found", "50% done, %s left %d", "100%", "duplicate tag", "unknown tag",
+			strings.Repeat("long error text ", 8)[:127], strings.Repeat("long error text ", 9)[:128], strings.Repeat("a rather long explanation. ", 8), strings.Repeat("é", 70)}).Draw(t, "errtext")
 		st.Plain = rapid.Bool().Draw(t, "plain")
 		if rapid.IntRange(0, 2).Draw(t, "special") == 0 {
 			special := []string{"wrap9p"}
